@@ -129,6 +129,7 @@ def asHOp (v : Json) : Except String HOp := do
   | .arr #[.str "iadd", i, j] => pure (.iadd (← asNatJ i) (← asNatJ j))
   | .arr #[.str "subset", i, p] => pure (.subset (← asNatJ i) (← asPred p))
   | .arr #[.str "split", i] => pure (.split (← asNatJ i))
+  | .arr #[.str "query", i, _, _] => pure (.query (← asNatJ i))
   | .arr #[.str "concat", is] => pure (.concat (← (← asArr is).mapM asNatJ))
   | _ => .error "!bad-arg:hop"
 
@@ -248,6 +249,16 @@ def h : Handler := fun op j =>
       | .error (.check c) => pure (checkName c)
       | .error (.expand .rateNeeded) => pure "ValueError:rate"
       | .error (.expand .noEffect) => pure "ValueError:no_effect"
+  | "categorize_kw" => do
+      let sys ← getSys j "sys"
+      let srt := fun (l : List String) => l.mergeSort (fun a b => decide (a ≤ b))
+      match categorizeKw sys (← getChecks j) (← getBool j "missing") with
+      | .ok c => pure (Json.arr #[jStrs (srt c.accumulated), jStrs (srt c.depleted), jStrs (srt c.unaffected),
+                                  jStrs (srt c.nonparticipating), jSys sys]).compress
+      | .error (.cat (.check c)) => pure (checkName c)
+      | .error (.cat (.expand .rateNeeded)) => pure "ValueError:rate"
+      | .error (.cat (.expand .noEffect)) => pure "ValueError:no_effect"
+      | .error .typeError => pure "TypeError"
   | "as_reactions" => do
       let r ← match j.getObjVal? "rxn" with
         | .ok v => asRxn v
